@@ -566,6 +566,8 @@ type FuncSpec struct {
 	Unroll   map[int]int
 	Uses     []string
 	FilePkg  string // package of the contract file the spec was written in
+	GhostParams []QVar                      // logical variables of the contract, bound by callers with `callghost`
+	CallGhost   map[string]map[string]Expr // callee short name -> ghost parameter -> expression in the caller
 	Claims   []*Clause // for `prove` blocks: stand-alone lemmas to be proved
 	Assumes  []*Clause // hypotheses of a `prove` block
 }
@@ -615,7 +617,7 @@ func newSpecSet() *SpecSet {
 var clauseKeywords = map[string]bool{"func": true, "requires": true, "ensures": true, "modifies": true,
 	"loop": true, "inline": true, "props": true, "arith": true, "pure": true, "function": true, "writes": true,
 	"type": true, "spec": true, "lemma": true, "global": true, "trusted": true, "ghost": true, "allocs": true,
-	"skip": true, "end": true, "uses": true, "ghostvar": true, "prove": true, "claim": true, "given": true}
+	"skip": true, "end": true, "uses": true, "ghostvar": true, "prove": true, "claim": true, "given": true, "ghostparam": true, "callghost": true}
 
 // specLines extracts the //@ payload lines of a Go file, or all lines of a
 // .spec file.
@@ -913,6 +915,30 @@ func (ss *SpecSet) parseFile(path, pkg string) error {
 			} else {
 				cur.Assumes = append(cur.Assumes, c)
 			}
+		case "ghostparam":
+			f := strings.Fields(rest)
+			if cur == nil || len(f) != 2 {
+				return fail(fmt.Errorf("ghostparam needs name and type inside a func block"))
+			}
+			cur.GhostParams = append(cur.GhostParams, QVar{f[0], f[1]})
+		case "callghost":
+			// callghost <callee> <param> = <expr>
+			f := strings.Fields(rest)
+			k := strings.Index(rest, "=")
+			if cur == nil || len(f) < 4 || k < 0 {
+				return fail(fmt.Errorf("callghost <callee> <param> = <expr>"))
+			}
+			e, err := parseExpr(rest[k+1:])
+			if err != nil {
+				return fail(err)
+			}
+			if cur.CallGhost == nil {
+				cur.CallGhost = map[string]map[string]Expr{}
+			}
+			if cur.CallGhost[f[0]] == nil {
+				cur.CallGhost[f[0]] = map[string]Expr{}
+			}
+			cur.CallGhost[f[0]][f[1]] = e
 		case "ghostvar":
 			f := strings.Fields(rest)
 			if len(f) != 2 {
